@@ -1,1 +1,194 @@
-From Verif Require Import Base.Sx Model.Join Model.K8sMultiline.
+(* C15 — multi-line reassembly keeps every byte, in order, within one stream (action level).
+   Only statements, each closed by [exact]; proofs live in Proofs/Join.v and Proofs/K8sMultiline.v.
+   join / join_template: Model/Join.v (one state machine; the regexps / template checks are oracle
+   bits carried by the events).  k8s: Model/K8sMultiline.v (the repaired code).
+   The processor-level clause (a stream stays on its processor while an action is busy; a
+   time-out is delivered only to a busy action) is the hypothesis [busy_ok] here and is discharged
+   by the pipeline model. *)
+From Verif Require Import Base.Sx Base.GoSem Model.Join Model.K8sMultiline Proofs.Join Proofs.K8sMultiline.
+
+(* ---- join ------------------------------------------------------------------------------------- *)
+(* for every configuration (max_event_size, negate flags, any number of templates) and every input
+   sequence in which time-outs arrive only while the action is busy: no panic, one result per input,
+   and what leaves the action is, in order, the decomposition of the input into maximal runs — a run
+   start . continue* becomes ONE event (the start event) whose field is the in-order concatenation
+   under the exact size rule [limited_cat]; every other event passes untouched; a run is closed by
+   the first non-continuing event or by a time-out; a run still open at the end is exactly what
+   the action holds *)
+Theorem c15_join_runs : forall c evs,
+  jwf c evs = true -> busy_ok c evs = true ->
+  exists os st, join_run c jstate0 evs = (os, Ok st) /\ length os = length evs /\
+    downstream os evs = flat_map (seg_down (jmax c)) (segments (jnegs c) evs) /\
+    map (fun o : jstep => fst o) os = flat_map seg_results (segments (jnegs c) evs) /\
+    state_pending st = spec_pending (jmax c) (segments (jnegs c) evs).
+Proof. exact join_runs. Qed.
+Print Assumptions c15_join_runs.
+
+(* [segments] is THE decomposition: it partitions the input (nothing lost, nothing duplicated,
+   order kept), its runs are well formed and maximal, and it is the only such decomposition *)
+Theorem c15_segments_partition : forall negs evs,
+  concat (map seg_inputs (segments negs evs)) = evs /\ segs_ok negs (segments negs evs) = true.
+Proof. exact segments_partition_ok. Qed.
+Print Assumptions c15_segments_partition.
+
+Theorem c15_segments_unique : forall negs ss,
+  segs_ok negs ss = true -> segments negs (concat (map seg_inputs ss)) = ss.
+Proof. exact segments_unique. Qed.
+Print Assumptions c15_segments_unique.
+
+(* the fuel in the definition of [segments] is irrelevant *)
+Theorem c15_segments_fuel : forall negs n evs,
+  (length evs <= n)%nat -> segments_fuel n negs evs = segments negs evs.
+Proof. exact segments_fuel_enough. Qed.
+Print Assumptions c15_segments_fuel.
+
+(* the size rule, exactly: the first k continuation lines are appended, where k is the first
+   position at which the buffer has reached max_event_size (so the result may exceed the limit by
+   less than one line); max_event_size = 0 appends everything *)
+Theorem c15_join_size_rule : forall max vs first,
+  exists k, (k <= length vs)%nat /\
+    limited_cat max first vs = first ++ concat (firstn k vs) /\
+    (forall j, (j < k)%nat -> max = 0 \/ len (first ++ concat (firstn j vs)) < max) /\
+    ((k < length vs)%nat -> max <> 0 /\ max <= len (first ++ concat (firstn k vs))).
+Proof. exact limited_cat_rule. Qed.
+Print Assumptions c15_join_size_rule.
+
+(* conservation: without a limit the bytes carried by the output events and the held run are the
+   input's field bytes, in order; with a limit each carries a prefix of that *)
+Theorem c15_join_conservation : forall negs evs,
+  concat (map (seg_bytes 0) (segments negs evs)) = in_bytes evs.
+Proof. exact join_conservation_zero. Qed.
+Print Assumptions c15_join_conservation.
+
+Theorem c15_join_cut_is_prefix : forall max s, exists rest, seg_bytes 0 s = seg_bytes max s ++ rest.
+Proof. exact seg_bytes_prefix. Qed.
+Print Assumptions c15_join_cut_is_prefix.
+
+(* the Panicf branches and the templates[curTemplateIdx] index are unreachable *)
+Theorem c15_join_never_panics : forall c evs,
+  jwf c evs = true -> busy_ok c evs = true -> is_ok (snd (join_run c jstate0 evs)) = true.
+Proof. exact join_never_panics. Qed.
+Print Assumptions c15_join_never_panics.
+
+(* the delivery hypothesis is necessary, and "busy" (Hold/Collapse) is exactly "holds an event" *)
+Theorem c15_join_timeout_when_idle_panics : forall c st i,
+  isJoining st = false -> join_do c st (i, JTimeout) = Panic 3.
+Proof. exact join_timeout_when_idle_panics. Qed.
+Print Assumptions c15_join_timeout_when_idle_panics.
+
+Theorem c15_join_busy_iff_joining : forall c st e st' o,
+  join_do c st e = Ok (st', o) -> is_busy (fst o) = isJoining st'.
+Proof. exact join_busy_iff_joining. Qed.
+Print Assumptions c15_join_busy_iff_joining.
+
+(* ---- k8s multi-line action (repaired code) ------------------------------------------------------ *)
+(* never panics: max_event_size 0 or >= 4, any split_event_size / cut-off / only_node setting, any
+   sequence of chunks and time-outs, every fragment at least the two quotes (empty ones included) *)
+Theorem c15_k8s_total : forall c xs, kmax_ok c = true -> forallb frag_ok xs = true ->
+  is_ok (snd (k_run c kstate0 xs)) = true /\ length (fst (k_run c kstate0 xs)) = length xs.
+Proof. exact k8s_total. Qed.
+Print Assumptions c15_k8s_total.
+
+(* time-out free input: every step is the function k_spec of the chunks of the current line *)
+Theorem c15_k8s_steps_are_spec : forall c xs,
+  kmax_ok c = true -> konly c = false -> no_timeout xs = true -> forallb frag_ok xs = true ->
+  exists st, k_run c kstate0 xs = (k_spec c [] xs, Ok st).
+Proof. exact k8s_steps_are_spec. Qed.
+Print Assumptions c15_k8s_steps_are_spec.
+
+(* ... which for a line whose chunks all fit is ONE passed event carrying the in-order
+   concatenation of the chunk bodies (an event that found nothing buffered is left untouched) *)
+Theorem c15_k8s_concat : forall c fs g,
+  first_unfit (kmax c) 1 fs = None ->
+  final_step c fs g =
+    match bodies fs with
+    | [] => (APass, 0, Some g, false)
+    | _ :: _ => (APass, 0, Some (QUOTE :: bodies fs ++ body g ++ [QUOTE]), false)
+    end.
+Proof. exact k8s_concat. Qed.
+Print Assumptions c15_k8s_concat.
+
+(* conservation without a limit and without time-outs: bytes out + bytes still buffered = bytes in *)
+Theorem c15_k8s_conservation : forall c, kmax c = 0 ->
+  forall xs, no_timeout xs = true ->
+  k_out_bytes (k_spec c [] xs) ++ bodies (map fst (k_pending c [] xs)) = k_in_bytes xs.
+Proof. exact k8s_conservation_top. Qed.
+Print Assumptions c15_k8s_conservation.
+
+(* the line-end test reads the JSON string tokens: n after an odd number of backslashes *)
+Theorem c15_k8s_line_end : forall f, 2 <= len f -> is_line_end f = Ok (ends_nl f).
+Proof. exact is_line_end_spec. Qed.
+Print Assumptions c15_k8s_line_end.
+
+Theorem c15_k8s_line_end_tokens : forall P : bytes,
+  ends_nl (QUOTE :: (P ++ [CH_n]) ++ [QUOTE]) = par (lead_bs (rev P)).
+Proof. exact ends_nl_tokens. Qed.
+Print Assumptions c15_k8s_line_end_tokens.
+
+(* ... hence, for any escaper that yields a quoted string whose last token is the pair
+   backslash-n exactly when the raw text ends with a newline byte (checked against insane-json on
+   every run), a chunk ends the line iff its raw text ends with a newline *)
+Theorem c15_k8s_line_end_raw : forall escaped : bytes -> bytes,
+  (forall raw, 2 <= len (escaped raw)) ->
+  (forall raw, ends_nl (escaped raw) = last_is_nl raw) ->
+  forall raw, is_line_end (escaped raw) = Ok (last_is_nl raw).
+Proof. exact line_end_raw. Qed.
+Print Assumptions c15_k8s_line_end_raw.
+
+(* REFUTED for this action: "a run is flushed when a stream time-out arrives".  The time-out branch
+   drops the buffered chunks (bytes ab are lost in the witness) *)
+Theorem c15_k8s_timeout_flush_refuted :
+  exists c xs, kmax c = 0 /\ forallb frag_ok xs = true /\
+    is_ok (snd (k_run c kstate0 xs)) = true /\
+    k_out_bytes (fst (k_run c kstate0 xs)) <> k_in_bytes xs /\
+    k_in_bytes xs = [97; 98; 99; 92; 110]%N /\ k_out_bytes (fst (k_run c kstate0 xs)) = [99; 92; 110]%N.
+Proof. exact k8s_timeout_flush_refuted. Qed.
+Print Assumptions c15_k8s_timeout_flush_refuted.
+
+(* the strongest true restriction: a time-out empties the buffer and only that (partial) *)
+Theorem c15_k8s_timeout_flush_partial : forall c tl e s co,
+  k_do c {| ebuf := QUOTE :: tl; esize := e; skipNext := s; cutOff := co |} KTimeout
+  = Ok ({| ebuf := [QUOTE]; esize := 0; skipNext := s; cutOff := false |}, (ADiscard, 0, None, false)).
+Proof. exact k8s_timeout_drops. Qed.
+Print Assumptions c15_k8s_timeout_flush_partial.
+
+(* ---- non-vacuity ------------------------------------------------------------------------------ *)
+(* join, max_event_size 4, one template: other, START(ab), cont(cd), cont(ef: dropped, buffer full),
+   other, START(gh), time-out, no-field, START(ij) still held *)
+Definition ex_evs : list jev :=
+  number_from 0
+    [JField true [120]%N [false] [false];
+     JField true [97; 98]%N [true] [false];
+     JField true [99; 100]%N [false] [true];
+     JField true [101; 102]%N [false] [true];
+     JField true [121]%N [false] [false];
+     JField true [103; 104]%N [true] [true];
+     JTimeout;
+     JNoField;
+     JField true [105; 106]%N [true] [false]].
+Definition ex_cfg : jcfg := {| jmax := 4; jnegs := [false] |}.
+
+Example c15_join_nonvacuous :
+  jwf ex_cfg ex_evs = true /\ busy_ok ex_cfg ex_evs = true /\
+  downstream (fst (join_run ex_cfg jstate0 ex_evs)) ex_evs =
+    [OPassed 0; OJoined 1 [97; 98; 99; 100]%N; OPassed 4; OJoined 5 [103; 104]%N; OPassed 7] /\
+  map (fun o : jstep => fst o) (fst (join_run ex_cfg jstate0 ex_evs)) = [0; 3; 1; 1; 0; 3; 2; 0; 3] /\
+  spec_pending 4 (segments [false] ex_evs) = Some (8, [105; 106]%N).
+Proof. vm_compute. repeat split; reflexivity. Qed.
+
+(* k8s, max_event_size 12 with cut-off: "ab" + "" + "cd\n" joined; then an oversize line cut *)
+Definition ex_chunks : list kin :=
+  [KChunk [34; 97; 98; 34]%N 10; KChunk [34; 34]%N 8; KChunk [34; 99; 100; 92; 110; 34]%N 12;
+   KChunk [34; 49; 50; 51; 52; 53; 54; 34]%N 14; KChunk [34; 55; 56; 57; 48; 34]%N 12;
+   KChunk [34; 92; 92; 110; 34]%N 11; KChunk [34; 122; 92; 110; 34]%N 11].
+Definition ex_kcfg : kcfg := {| kmax := 12; ksplit := 524288; kcut := true; kfield := true; konly := false |}.
+
+Example c15_k8s_nonvacuous :
+  kmax_ok ex_kcfg = true /\ forallb frag_ok ex_chunks = true /\ no_timeout ex_chunks = true /\
+  k_run ex_kcfg kstate0 ex_chunks =
+    ([(1, 0, None, false); (1, 0, None, false);
+      (0, 0, Some [34; 97; 98; 99; 100; 92; 110; 34]%N, false);
+      (1, 0, None, false); (1, 1, None, false); (1, 0, None, false);
+      (0, 0, Some [34; 49; 50; 51; 52; 53; 54; 55; 56; 57; 92; 110; 34]%N, true)],
+     Ok kstate0).
+Proof. vm_compute. repeat split; reflexivity. Qed.
